@@ -109,10 +109,10 @@ Theorem C03_code_tie :
   /\ (forall (R : Type) (f : kwargs -> R) i, interp f i (run_prov i) = DS (run_order i))
   /\ gen_unflatten_is_transcribed = true
   /\ gen_label_flow = model_label_flow
-  /\ gen_prologue_is_transcribed = true.
+  /\ gen_prologue_is_transcribed = true /\ gen_multi_concat_is_pinned = true.
 Proof.
   split; [intros; apply bridge_info|]. split; [intros; apply bridge_results|].
-  split; [intros; apply bridge_run|]. split; [exact (proj1 bridge_flags)|]. split; [exact bridge_label_flow|exact bridge_prologue].
+  split; [intros; apply bridge_run|]. split; [exact (proj1 bridge_flags)|]. split; [exact bridge_label_flow|exact (conj bridge_prologue bridge_multi_concat)].
 Qed.
 
 (* the direct routes Runner.run_combos / run_cases hand the runner's description and the caller's fn_args
